@@ -6,6 +6,8 @@ CONSTANTS
   MaxNone = 1000
   MaxTicks = 1000
   MaxPause = 1000
+  MaxRec = 1000
+  EaccReset = FALSE
   Dts = {16}
   WriterOrder = "clear_then_set"
   I1 = 30
